@@ -112,7 +112,9 @@ def datetime_from_uuid1(uuid_arg):
 
     :param uuid_arg: a version 1 :class:`~uuid.UUID`
     """
-    return datetime_from_timestamp(unix_time_from_uuid1(uuid_arg))
+    # whole microseconds rather than float seconds, which cannot hold microseconds
+    # a century or more away from the epoch
+    return DATETIME_EPOC + datetime.timedelta(microseconds=(uuid_arg.time - 0x01B21DD213814000) // 10)
 
 
 def min_uuid_from_time(timestamp):
